@@ -97,6 +97,43 @@ def gen_problem(rng, cid, repeats=False, alt_types=False):
             "layout": rng.randrange(1 << 30) if rng.random() < 0.5 else None}
 
 
+LONG_OBJS = ["truck-central", "truck-eastern", "truck-western-depot", "trailer-one", "long-distance-hauler"]
+
+
+def long_names_case(rng, cid):
+    """a problem whose names are hyphenated words and whose numeric goals are sums too long for one short line
+    (realistic benchmark style: fuel-level, total-cost, truck-central)"""
+    dom = L(S("define"), L(S("domain"), S("haulage-fleet")), L(S(":requirements"), S(":typing")),
+            L(S(":types"), *typed([["road-vehicle", "object"]])),
+            L(S(":predicates"), L(S("parked-at-base"), *typed([["?v", "road-vehicle"]]))),
+            L(S(":functions"), L(S("fuel-level"), *typed([["?v", "road-vehicle"]])), L(S("total-cost")),
+              L(S("distance-between"), *typed([["?a", "road-vehicle"], ["?b", "road-vehicle"]]))),
+            L(S(":action"), S("refuel-vehicle"), S(":parameters"), L(*typed([["?v", "road-vehicle"]])),
+              S(":precondition"), L(S("and"), L(S("parked-at-base"), S("?v"))),
+              S(":effect"), L(S("and"), L(S("increase"), L(S("fuel-level"), S("?v")), N(1)))))
+    objs = rng.sample(LONG_OBJS, rng.choice([3, 4, 5]))
+    items = [L(S("parked-at-base"), S(o)) for o in objs if rng.random() < 0.6]
+    items += [L(S("="), L(S("fuel-level"), S(o)), num(rng, short=True)) for o in objs]
+    items += [L(S("="), L(S("total-cost")), num(rng, short=True))]
+    pairs = [(a, b) for a in objs for b in objs if a != b]
+    items += [L(S("="), L(S("distance-between"), S(a), S(b)), num(rng, short=True)) for a, b in rng.sample(pairs, 3)]
+    goals = [L(S("parked-at-base"), S(rng.choice(objs)))]
+    for _ in range(rng.choice([1, 2])):
+        terms = [L(S("fuel-level"), S(o)) for o in rng.sample(objs, 3)]
+        if rng.random() < 0.5:
+            a, b = rng.choice(pairs)
+            terms.append(L(S("distance-between"), S(a), S(b)))
+        rng.shuffle(terms)
+        e = terms[0]
+        for t in terms[1:]:
+            e = L(S(rng.choice(["+", "+", "-"])), e, t)
+        goals.append(L(S(rng.choice(["<=", ">=", "<"])), e, num(rng, short=True)))
+    prob = L(S("define"), L(S("problem"), S(f"haulage-{cid}")), L(S(":domain"), S("haulage-fleet")),
+             L(S(":objects"), *typed([[o, "road-vehicle"] for o in objs])), L(S(":init"), *items),
+             L(S(":goal"), L(S("and"), *goals)))
+    return {"id": cid, "dom": dom, "prob": prob, "seed": cid, "walk": 0}
+
+
 def corrupt(rng, case):
     """one single-point corruption (may leave the problem well formed: the spec decides)"""
     names = [n for n, _ in case["objs"]] + [c for c, _ in CONSTS] + ["nosuch"]
